@@ -1,5 +1,342 @@
 import Driver.Util
+import KavaVerif.Model.Cdp
+/-!
+  C04 driver (also the parsing / observation layer shared with C05).
+
+  One self-contained case per line (`c04.op`):
+    kind  params  pre-state  args  "=>"  result  post-state  tol
+  kind   ∈ create | deposit | withdraw | draw | repay | liquidate | begin
+  params = types `;`-separated, each `denom,liqRatio,debtLimit,feeIsOne,keeperReward,checkCount,cf,spot,liq`
+           `|` globals `debtCf,debtFloor,globalLimit,surplusThr,surplusLot,debtThr,debtLot,genesisUsdx,nDenoms,nMarkets`
+           `|` user accounts (comma separated, ascending = address byte order)
+  state  = 12 sections separated by `|`:
+           nextId | cdps `id:owner:ty:coll:prin:fees:updated:ifac;…` | deposits `id:acct:amt;…` |
+           owner index `acct:id.id;…` (raw store iteration) | ratio index `ty:key:id;…` (raw store order) |
+           total principal per type | interest factor per type | accrual time per type |
+           market status flags | current prices per market | balances `acct:denom:amt;…` | supply per denom
+  args   = comma separated integers (see `runOp`)
+  tol    = per type: number of interest roundings so far (accumulations + per-CDP synchronisations)
+
+  (1) the Lean model is run on the observed pre-state and compared with the observed post-state → MISMATCH
+  (2) the C04 predicates are evaluated on the implementation's own post-state → PREDFAIL
+-/
 namespace Drv.C04
+open KV KV.Cdp
+
+structure U where
+  E : Env
+  nDen : Nat
+  nMkt : Nat
+  genUsdx : Int
+  users : List Nat
+deriving Inhabited
+
+/-- canonical finite observation of a state -/
+structure Obs where
+  nextId : Nat
+  cdps : List (Nat × Cdp)
+  deps : List (Nat × Nat × Int)
+  own : List (Nat × List Nat)
+  idx : List Entry
+  tprin : List Int
+  ifac : List (Option Int)
+  accr : List (Option Int)
+  status : List Bool
+  price : List (Option Int)
+  bal : List (Nat × Nat × Int)
+  supply : List Int
+deriving Inhabited
+
+def optInt? (s : String) : Option (Option Int) :=
+  let t := s.trimAscii.toString
+  if t == "-" then some none else (int? t).map some
+
+def sec (s : String) (sep : String) : List String :=
+  let t := s.trimAscii.toString
+  if t == "" || t == "-" then [] else t.splitOn sep
+
+def parseColl (s : String) : Option CollParam :=
+  match s.splitOn "," with
+  | [denom, lr, dl, fo, kr, cc, cf, spot, liq] => do
+    let denom ← nat? denom
+    let lr ← int? lr
+    let dl ← int? dl
+    let fo ← bool? fo
+    let kr ← int? kr
+    let cc ← int? cc
+    let cf ← nat? cf
+    let spot ← nat? spot
+    let liq ← nat? liq
+    pure { denom := denom, liqRatio := ⟨lr⟩, debtLimit := dl, feeIsOne := fo, keeperReward := ⟨kr⟩,
+           checkCount := cc, cf := cf, spot := spot, liq := liq }
+  | _ => none
+
+def parseU (s : String) : Option U :=
+  match s.splitOn "|" with
+  | [tys, glob, users] => do
+    let colls ← (sec tys ";").mapM parseColl
+    let users ← nats? users
+    match glob.splitOn "," with
+    | [dcf, fl, gl, st, sl, dt, dlot, gu, nd, nm] => do
+      let dcf ← nat? dcf
+      let fl ← int? fl
+      let gl ← int? gl
+      let st ← int? st
+      let sl ← int? sl
+      let dt ← int? dt
+      let dlot ← int? dlot
+      let gu ← int? gu
+      let nd ← nat? nd
+      let nm ← nat? nm
+      pure { E := { P := { colls := colls, debtCf := dcf, debtFloor := fl, globalLimit := gl,
+                            surplusThreshold := st, surplusLot := sl, debtThreshold := dt, debtLot := dlot },
+                    accts := users },
+             nDen := nd, nMkt := nm, genUsdx := gu, users := users }
+    | _ => none
+  | _ => none
+
+def parseCdp (s : String) : Option (Nat × Cdp) :=
+  match s.splitOn ":" with
+  | [id, o, ty, c, p, f, u, i] => do
+    let id ← nat? id
+    let o ← nat? o
+    let ty ← nat? ty
+    let c ← int? c
+    let p ← int? p
+    let f ← int? f
+    let u ← int? u
+    let i ← int? i
+    pure (id, { owner := o, ty := ty, coll := c, prin := p, fees := f, updated := u, ifac := ⟨i⟩ })
+  | _ => none
+
+def parse3 (s : String) : Option (Nat × Nat × Int) :=
+  match s.splitOn ":" with
+  | [a, b, c] => do
+    let a ← nat? a
+    let b ← nat? b
+    let c ← int? c
+    pure (a, b, c)
+  | _ => none
+
+def parseIdx (s : String) : Option Entry :=
+  match s.splitOn ":" with
+  | [a, b, c] => do
+    let a ← nat? a
+    let b ← int? b
+    let c ← nat? c
+    pure (a, b, c)
+  | _ => none
+
+def parseOwn (s : String) : Option (Nat × List Nat) :=
+  match s.splitOn ":" with
+  | [a, ids] => do
+    let a ← nat? a
+    let ids ← (sec ids ".").mapM nat?
+    pure (a, ids)
+  | _ => none
+
+def parseObs (s : String) : Option Obs :=
+  match s.splitOn "|" with
+  | [nid, cdps, deps, own, idx, tp, ifc, acr, stt, prc, bal, sup] => do
+    let nid ← nat? nid
+    let cdps ← (sec cdps ";").mapM parseCdp
+    let deps ← (sec deps ";").mapM parse3
+    let own ← (sec own ";").mapM parseOwn
+    let idx ← (sec idx ";").mapM parseIdx
+    let tp ← ints? tp
+    let ifc ← (sec ifc ",").mapM optInt?
+    let acr ← (sec acr ",").mapM optInt?
+    let stt ← (sec stt ",").mapM bool?
+    let prc ← (sec prc ",").mapM optInt?
+    let bal ← (sec bal ";").mapM parse3
+    let sup ← ints? sup
+    pure { nextId := nid, cdps := cdps, deps := deps, own := own, idx := idx, tprin := tp, ifac := ifc,
+           accr := acr, status := stt, price := prc, bal := bal, supply := sup }
+  | _ => none
+
+def lookup3 (l : List (Nat × Nat × Int)) (a b : Nat) : Int :=
+  match l.find? (fun e => e.1 == a && e.2.1 == b) with
+  | some e => e.2.2
+  | none => 0
+
+def stOf (o : Obs) : St :=
+  { cdp := fun id => o.cdps.lookup id,
+    nextId := o.nextId,
+    dep := fun id a => lookup3 o.deps id a,
+    own := fun a => (o.own.lookup a).getD [],
+    idx := o.idx,
+    tprin := fun t => o.tprin.getD t 0,
+    ifac := fun t => ((o.ifac.getD t none).map (fun m => (⟨m⟩ : Dec))),
+    accr := fun t => o.accr.getD t none,
+    status := fun m => o.status.getD m false,
+    price := fun m => ((o.price.getD m none).map (fun m => (⟨m⟩ : Dec))),
+    bal := fun a d => lookup3 o.bal a d,
+    supply := fun d => o.supply.getD d 0 }
+
+def allAccts (u : U) : List Nat := [0, 1, 2] ++ u.users
+
+def obsOf (u : U) (s : St) : Obs :=
+  let ids := List.range s.nextId
+  let tys := List.range u.E.P.colls.length
+  let mk := List.range u.nMkt
+  { nextId := s.nextId,
+    cdps := ids.filterMap (fun id => (s.cdp id).map (fun c => (id, c))),
+    deps := ids.flatMap (fun id => u.users.filterMap (fun a => if s.dep id a ≠ 0 then some (id, a, s.dep id a) else none)),
+    own := u.users.filterMap (fun a => if (s.own a).isEmpty then none else some (a, s.own a)),
+    idx := s.idx,
+    tprin := tys.map s.tprin,
+    ifac := tys.map (fun t => (s.ifac t).map (·.m)),
+    accr := tys.map s.accr,
+    status := mk.map s.status,
+    price := mk.map (fun m => (s.price m).map (·.m)),
+    bal := (allAccts u).flatMap (fun a => (List.range u.nDen).filterMap (fun d =>
+              if s.bal a d ≠ 0 then some (a, d, s.bal a d) else none)),
+    supply := (List.range u.nDen).map s.supply }
+
+def showOI (l : List (Option Int)) : String :=
+  ",".intercalate (l.map (fun x => match x with | some v => toString v | none => "-"))
+
+def showCdp (e : Nat × Cdp) : String :=
+  s!"{e.1}:{e.2.owner}:{e.2.ty}:{e.2.coll}:{e.2.prin}:{e.2.fees}:{e.2.updated}:{e.2.ifac.m}"
+
+def show3 (l : List (Nat × Nat × Int)) : String := ";".intercalate (l.map (fun e => s!"{e.1}:{e.2.1}:{e.2.2}"))
+def showIdx (l : List Entry) : String := ";".intercalate (l.map (fun e => s!"{e.1}:{e.2.1}:{e.2.2}"))
+def showOwn (l : List (Nat × List Nat)) : String :=
+  ";".intercalate (l.map (fun e => s!"{e.1}:" ++ ".".intercalate (e.2.map toString)))
+
+/-- model observation vs implementation observation, section by section -/
+def cmpObs (m i : Obs) : String :=
+  allOk [
+    expectEq "nextId" (toString m.nextId) (toString i.nextId),
+    expectEq "cdps" (";".intercalate (m.cdps.map showCdp)) (";".intercalate (i.cdps.map showCdp)),
+    expectEq "deposits" (show3 m.deps) (show3 i.deps),
+    expectEq "ownerIndex" (showOwn m.own) (showOwn i.own),
+    expectEq "ratioIndex" (showIdx m.idx) (showIdx i.idx),
+    expectEq "totalPrincipal" (showInts m.tprin) (showInts i.tprin),
+    expectEq "interestFactor" (showOI m.ifac) (showOI i.ifac),
+    expectEq "accrualTime" (showOI m.accr) (showOI i.accr),
+    expectEq "status" (",".intercalate (m.status.map showBool)) (",".intercalate (i.status.map showBool)),
+    expectEq "price" (showOI m.price) (showOI i.price),
+    expectEq "balances" (show3 m.bal) (show3 i.bal),
+    expectEq "supply" (showInts m.supply) (showInts i.supply)]
+
+/-- run the model on one operation -/
+def runOp (u : U) (kind : String) (a : List Int) (s : St) : Option (Res St) :=
+  let E := u.E
+  match kind, a with
+  | "create", [now, o, ty, c, cd, p, pd] => some (create E now s o.toNat ty.toNat c cd.toNat p pd.toNat)
+  | "deposit", [now, o, d, ty, c, cd] => some (deposit E now s o.toNat d.toNat ty.toNat c cd.toNat)
+  | "withdraw", [now, o, d, ty, c, cd] => some (withdraw E now s o.toNat d.toNat ty.toNat c cd.toNat)
+  | "draw", [now, o, ty, p, pd] => some (draw E now s o.toNat ty.toNat p pd.toNat)
+  | "repay", [now, o, ty, p, pd] => some (repay E now s o.toNat ty.toNat p pd.toNat)
+  | "liquidate", [now, k, o, ty] => some (liquidate E now s k.toNat o.toNat ty.toNat)
+  | "begin", now :: skip :: facs => some (beginBlock E now (skip != 0) (facs.map (fun m => (⟨m⟩ : Dec))) s)
+  | _, _ => none
+
+def resClass {α : Type} : Res α → String
+  | .ok _ => "ok"
+  | .err => "err"
+  | .panic => "panic"
+
+/-! ### the C04 predicates, evaluated on an observation of the implementation -/
+
+def sumI (l : List Int) : Int := l.foldl (· + ·) 0
+
+def strictlySorted : List Entry → Bool
+  | [] => true
+  | [_] => true
+  | a :: b :: rest => eLt a b && strictlySorted (b :: rest)
+
+def strictlyAsc : List Nat → Bool
+  | [] => true
+  | [_] => true
+  | a :: b :: rest => decide (a < b) && strictlyAsc (b :: rest)
+
+/-- `Inv4` on an observation: `none` = holds, `some (name, tag)` = the first violated clause -/
+def inv4 (u : U) (o : Obs) (tol : List Int) : Option (String × String) :=
+  let E := u.E
+  let cdpOf := fun id => o.cdps.lookup id
+  -- every deposit belongs to an existing CDP and is positive
+  if o.deps.any (fun d => (cdpOf d.1).isNone) then some ("C04_cdp_collateral_eq_deposits", "orphan-deposit")
+  else if o.deps.any (fun d => d.2.2 ≤ 0) then some ("C04_cdp_collateral_eq_deposits", "non-positive-deposit")
+  -- each CDP's collateral = Σ its deposits
+  else if o.cdps.any (fun e => e.2.coll != sumI ((o.deps.filter (fun d => d.1 == e.1)).map (·.2.2)))
+    then some ("C04_cdp_collateral_eq_deposits", "collateral-ne-deposits")
+  -- custody per collateral denom
+  else if (List.range u.nDen).any (fun d => d ≥ 2 &&
+      lookup3 o.bal 0 d != sumI ((o.deps.filter (fun x =>
+        match cdpOf x.1 with | some c => denomOf E c.ty == d | none => false)).map (·.2.2)))
+    then some ("C04_custody", "module-balance-ne-deposits")
+  -- owner index exact
+  else if o.cdps.any (fun e => ((o.own.lookup e.2.owner).getD []).count e.1 != 1)
+    then some ("C04_owner_index_exact", "cdp-not-indexed-once")
+  else if o.own.any (fun e => e.2.any (fun id => match cdpOf id with | some c => c.owner != e.1 | none => true))
+    then some ("C04_owner_index_exact", "stale-owner-entry")
+  else if o.own.any (fun e => !strictlyAsc e.2) then some ("C04_owner_index_exact", "ids-not-sorted")
+  -- ratio index exact
+  else if o.cdps.any (fun e => !(o.idx.contains (e.2.ty, keyOf E e.2, e.1)))
+    then some ("C04_ratio_index_exact", "cdp-not-under-current-ratio")
+  else if o.idx.length != o.cdps.length then some ("C04_ratio_index_exact", "stale-or-duplicate-entry")
+  else if !strictlySorted o.idx then some ("C04_ratio_index_exact", "store-order")
+  -- stable issued ≤ debt coins held by cdp + liquidator + auction
+  else if o.supply.getD 0 0 - u.genUsdx > lookup3 o.bal 0 1 + lookup3 o.bal 1 1 + lookup3 o.bal 2 1
+    then some ("C04_stable_le_debt", "issued-exceeds-debt")
+  -- total principal = Σ debt up to interest rounding
+  else if (List.range E.P.colls.length).any (fun t =>
+      let sumDebt := sumI ((o.cdps.filter (fun e => e.2.ty == t)).map (fun e => e.2.prin + e.2.fees))
+      let drift := o.tprin.getD t 0 - sumDebt
+      (if drift < 0 then -drift else drift) > tol.getD t 0)
+    then some ("C04_total_principal", "drift-exceeds-rounding")
+  else none
+
+def sameObs (a b : Obs) : Bool := cmpObs a b == "ok"
+
+/-- closing repay: every depositor got back exactly its recorded deposit -/
+def closeReturns (u : U) (pre post : Obs) (owner ty : Nat) : Option String :=
+  match pre.cdps.find? (fun e => e.2.owner == owner && e.2.ty == ty) with
+  | none => none
+  | some (id, c) =>
+    if (post.cdps.lookup id).isSome then none      -- not closed
+    else
+      let d := denomOf u.E c.ty
+      if u.users.any (fun a => lookup3 post.bal a d != lookup3 pre.bal a d + lookup3 pre.deps id a)
+      then some "depositor-not-repaid-exactly"
+      else if post.deps.any (fun x => x.1 == id) then some "deposit-left"
+      else none
+
+def handle : Handler
+  | [kind, params, pre, args, _, result, post, tol] =>
+    match parseU params, parseObs pre, ints? args, parseObs post, ints? tol with
+    | some u, some pre, some args, some post, some tol =>
+      match runOp u kind args (stOf pre) with
+      | none => badInput "op"
+      | some res =>
+        let cls := resClass res
+        if cls != result then mismatch "result" cls result
+        else
+          -- (1) model vs implementation
+          let cmp := match res with
+            | .ok s' => cmpObs (obsOf u s') post
+            | _ => "ok"
+          if cmp != "ok" then cmp else
+          -- (2) predicates on the implementation's own observation
+          if result != "ok" then
+            (if sameObs pre post then "ok" else predfail "C04_failed_noop" s!"{kind}-state-changed")
+          else
+          match inv4 u post tol with
+          | some (name, tag) => predfail name s!"{tag} after-{kind}"
+          | none =>
+            if kind == "repay" then
+              match args with
+              | [_, o, ty, _, _] =>
+                (match closeReturns u pre post o.toNat ty.toNat with
+                 | some why => predfail "C04_close_returns_deposits" why
+                 | none => "ok")
+              | _ => "ok"
+            else "ok"
+    | _, _, _, _, _ => badInput "parse"
+  | _ => badInput "arity"
+
 /-- handlers of property C04: (command name, handler) -/
-def handlers : List (String × Handler) := []
+def handlers : List (String × Handler) := [("c04.op", handle)]
 end Drv.C04
